@@ -81,6 +81,11 @@ template <class X> void norm_run(Ctx& c, const Str& s, const char* gen, uint64_t
             int rc2 = b.normalize(mask); c.evaluations++;
             Str out2 = text_of<X>(c, b);
             if (rc2 != URI_SUCCESS || out2 != out) c.violation("C08", fmt("norm/%s/not-idempotent", X::tag()), what + fmt(" once=\"%s\" twice=\"%s\"", esc(out).c_str(), esc(out2).c_str()));
+            // "lowercases scheme and host": for an IPv6 literal the recomposed text is written from the address bytes (lower case, judged
+            // above); the spelling kept in the public hostText range is the input's. With HOST in the mask an upper-case hex digit there
+            // has not been lowercased -- recorded finding (independent review), diagnosed as exactly this
+            if ((mask & URI_NORMALIZE_HOST) && b.u.hostData.ip6 && b.u.hostText.first) { bool up = false; for (auto* q = b.u.hostText.first; q < b.u.hostText.afterLast; q++) if (*q >= 'A' && *q <= 'F') up = true;
+                if (up) c.violation("C08", fmt("norm/%s/ipv6-host-text-keeps-its-upper-case", X::tag()), what); else c.count("ipv6_host_text_lower_case_after_normalize"); }
             c.distinct(hash_str(s, mask * 2 + (unsigned)owned));
             b.free_members();
             if (l) {
